@@ -113,6 +113,10 @@ type sim struct {
 	turn      int // id of the task allowed to run; -2 = the driver goroutine
 	unlockGen int64
 	aborted   bool
+	inline    bool           // inside Run's single-task path (the driver goroutine is the task)
+	nroot     int            // number of root tasks (slots below it are never reused)
+	joined    sync.WaitGroup // task exit -> driver happens-before edge
+	wgTab     []wgState      // cooperative sync.WaitGroup counters
 
 	// clock
 	ms      int64
@@ -125,6 +129,15 @@ type onceState struct {
 	key     uintptr
 	running bool
 }
+
+type wgState struct {
+	key uintptr
+	n   int
+}
+
+// maxTasks bounds the task table (it is never reallocated: parked tasks keep
+// pointers into it). Goroutines started beyond it run outside the scheduler.
+const maxTasks = 64
 
 // ctab is a string -> counter table built on slices only. Go maps cannot be
 // used for state that simulated tasks touch: the runtime's map functions carry
@@ -428,21 +441,35 @@ func Run(fns []func()) {
 		return
 	}
 	if len(fns) == 1 {
-		// a single task needs no scheduler; yields are no-ops
+		// a single task needs no scheduler: it runs on the driver goroutine and
+		// yields are no-ops - unless the code under test starts goroutines of
+		// its own (simrt.Go), which promotes the run to scheduler mode with the
+		// driver goroutine as task 0.
 		s.tasks = nil
+		s.turn = -2
+		s.inline = true
 		fns[0]()
+		s.inline = false
+		if s.tasks != nil {
+			s.exitTask(0)
+			for s.turn != -2 {
+				runtime.Gosched()
+			}
+			s.joined.Wait()
+			s.tasks = nil
+		}
 		return
 	}
-	s.tasks = make([]taskState, len(fns))
+	s.tasks = make([]taskState, len(fns), maxTasks)
+	s.nroot = len(fns)
 	s.turn = -1
 	// The only happens-before edges the simulator itself creates: driver ->
 	// task at goroutine creation, and task exit -> driver through this
 	// WaitGroup (so the harness may read what the tasks produced). Nothing
 	// orders one task with another.
-	var joined sync.WaitGroup
-	joined.Add(len(fns))
+	s.joined.Add(len(fns))
 	for i, f := range fns {
-		go taskMain(s, i, f, &joined)
+		go taskMain(s, i, f, &s.joined)
 	}
 	// pick the first task from the tape
 	first := int(s.draw(uint32(len(fns))))
@@ -451,8 +478,61 @@ func Run(fns []func()) {
 	for s.turn != -2 {
 		runtime.Gosched()
 	}
-	joined.Wait()
+	s.joined.Wait()
 	s.tasks = nil
+}
+
+// Go is what a `go` statement of the code under test is rewritten to: the new
+// goroutine becomes a simulated task like any other (runnable at once; who
+// runs next stays the tape's decision). The real `go` statement inside gives
+// the parent -> child happens-before edge the language promises.
+//
+//go:norace
+func Go(f func()) {
+	s := cur
+	if s == nil {
+		go f()
+		return
+	}
+	if s.tasks == nil {
+		if !s.inline {
+			// driver context (warm-up history, references): not scheduled
+			go runTask(f)
+			return
+		}
+		// promote the inline single-task run: the driver goroutine is task 0
+		s.tasks = make([]taskState, 1, maxTasks)
+		s.nroot = 1
+		s.turn = 0
+	}
+	if s.turn < 0 {
+		s.fault("uncontrolled.goroutine")
+		go runTask(f)
+		return
+	}
+	// reuse the slot of a finished spawned task (the table never grows beyond
+	// maxTasks and is never reallocated)
+	id := -1
+	for i := s.nroot; i < len(s.tasks); i++ {
+		if s.tasks[i].done {
+			id = i
+			s.tasks[i] = taskState{}
+			break
+		}
+	}
+	if id < 0 {
+		if len(s.tasks) >= maxTasks {
+			s.fault("uncontrolled.goroutine")
+			go runTask(f)
+			return
+		}
+		id = len(s.tasks)
+		s.tasks = append(s.tasks, taskState{})
+	}
+	s.joined.Add(1)
+	s.fault("spawn")
+	s.event("sched", "spawn", int64(id))
+	go taskMain(s, id, f, &s.joined)
 }
 
 //go:norace
